@@ -411,7 +411,7 @@ def run(ctx):
     race_seqs = [[e] for e in EVENTS] + [['2probe', e] for e in EVENTS]
     if not ctx.quick:
         race_seqs += [['2probe', '5', e] for e in ('4m', '1', 'CLOSE')]
-    params = [{'impl': impl, 'events': sq} for impl in ('sync', 'async') for sq in race_seqs]
+    params = [{'impl': impl, 'events': sq, '_free_switch': not ctx.quick} for impl in ('sync', 'async') for sq in race_seqs]
     bound = 1 if ctx.quick else 2
     st, viols, samples, gate = core.run_search(HandshakeRace, params, bound, ctx.workers, ctx.seed)
     for v in viols:
